@@ -127,6 +127,26 @@ def _check_cloud(rec, dreye, name, P, family, seed, motions=True):
         if not ok:
             _v(rec, "a", dict(sig, api="compute_volume", what="value"), "volume %.10g differs from the hull volume in the affine span %.10g" % (vol, ref), case0, observed=vol, expected=ref,
                script="import numpy as np, dreye\nprint(dreye.compute_volume(np.array(%r)))\n" % (P.tolist(),))
+    # ---- integer-typed clouds (lattice points as int arrays): the same numbers as for the same values as floats
+    if np.all(P == np.round(P)):
+        Pi = P.astype(np.int64)
+        rec.path()
+        rec.trans(10)
+        bad_i = None
+        try:
+            if abs(float(dreye.compute_volume(Pi)) - float(dreye.compute_volume(P))) > 1e-12 * (1 + abs(ref)):
+                bad_i = "compute_volume"
+            for center_, vec_ in itertools.product((False, True), (False, True)):
+                wi = float(dreye.compute_mean_width(Pi, n=200, seed=3, center=center_, vectorized=vec_))
+                wf = float(dreye.compute_mean_width(P, n=200, seed=3, center=center_, vectorized=vec_))
+                if abs(wi - wf) > 1e-12 * (1 + abs(wf)):
+                    bad_i = "compute_mean_width(center=%r, vectorized=%r): %.6g vs %.6g" % (center_, vec_, wi, wf)
+        except Exception as e:  # noqa
+            bad_i = "raised %r" % (e,)
+        rec.outcome("int-typed-cloud/%s" % ("same" if bad_i is None else "differs"))
+        if bad_i:
+            _v(rec, "c", dict(sig, api="compute_mean_width", what="int-typed cloud"), "an integer-typed cloud is measured differently from the same cloud as floats: %s" % bad_i, case0,
+               script="import numpy as np, dreye\nP = np.array(%r)\nprint(dreye.compute_mean_width(P, n=200, seed=3, center=True), dreye.compute_mean_width(P.astype(float), n=200, seed=3, center=True))\n" % (Pi.tolist(),))
     # ---- mean width
     nmc = 20000
     hoeff = diam * math.sqrt(math.log(2 / 1e-12) / (2 * nmc))
